@@ -2,6 +2,7 @@ package props
 
 import (
 	"github.com/mlange-42/arche/ecs/event"
+	"strings"
 	"verifharness/runner"
 	"verifharness/sim"
 	"verifharness/wx"
@@ -46,5 +47,9 @@ func init() {
 			job(sub("c12-rich-three-targets-batch", sim.RichThreeTargetsCfg("", 1, fBSet|fBExch|fRelX|fBRem|fQ, 0), restr1, menu1), pick(tier, 1, 2), 1),
 			job(sub("c12-rel-k4-1p-life", sim.RelCfg("", 0, 4, 1, 8, fBld|fMove|fRet|fBRem, 0), restr1, menu1), pick(tier, 4, 6), 1),
 		}
-	}, func(f *wx.Failure, _ string) bool { return f.Prop == "C12" || f.Prop == "" })
+	}, func(f *wx.Failure, _ string) bool {
+		// the type bits and the content of the full stream are what the subscription rule selects on and what must arrive
+		// unchanged: a wrong full stream is accepted here as well (it is C11's oracle that sees it)
+		return f.Prop == "C12" || f.Prop == "" || f.Prop == "C11" && strings.HasPrefix(f.Sig, "event:")
+	})
 }
